@@ -58,6 +58,9 @@ ResD(db, r, id) == [db |-> db, r |-> r, dv |-> {id}, rel |-> {}, tol |-> {}]
 Fail(db, r) == Res(db, r)     \* failed commands are inert (C06)
 
 On(id) == id \in devs
+\* "what the code does" reading; switches storage details that are not observable by themselves
+\* (the emulator expires lazily: an object whose deadline is set into the past stays stored)
+Real == devs # {}
 
 \* order-independent choice of a sequence enumerating a finite set (for replies the
 \* harness compares as multisets anyway)
